@@ -141,6 +141,31 @@ def run(out, tier, seed):
                     jobs.append({"cfg": {"facade": "graph", "store": "Memory"}, "events": [data, {"op": "query", "q": dict(q, postvalues={"vars": [v], "rows": [[val]]})}]})
                     jobs.append({"cfg": {"facade": "graph", "store": "SimpleMemory"},
                                  "events": [data, {"op": "prepare", "id": "q", "q": dict(q, postvalues={"vars": [v], "rows": [[val]]})}, {"op": "run", "id": "q"}, {"op": "run", "id": "q"}]})
+    # initBindings for a variable that a later BGP binds, next to a sub-select / nested group / UNION that does not mention it
+    # (joined before or after that BGP): the pre-bound value has to survive the join with the other operand's solutions
+    for i, (yb, yv) in enumerate([(bgp((V("x"), I("p"), V("y"))), "y"), (bgp((V("y"), I("q"), V("x"))), "y"), (bgp((V("x"), V("y"), V("o"))), "y")]):
+        others = [{"t": "subselect", "q": {"form": "select", "proj": ["x"], "distinct": False, "where": grp(bgp((V("x"), I("q"), V("z"))))}},
+                  {"t": "subselect", "q": {"form": "select", "proj": ["x"], "distinct": True, "where": grp(bgp((V("x"), I("p"), V("z"))))}},
+                  {"t": "group", "g": grp(bgp((V("x"), I("q"), V("z"))))},
+                  {"t": "union", "gs": [grp(bgp((V("x"), I("q"), V("z")))), grp(bgp((V("x"), I("p"), V("w"))))]},
+                  {"t": "values", "vars": ["x"], "rows": [[I("n1")], [I("n2")], [I("n1")]]}]
+        for oi, other in enumerate(others):
+            for w in (grp(other, yb), grp(yb, other), grp(other, yb, {"t": "optional", "g": grp(bgp((V("x"), I("q"), V("k"))))})):
+                for val in ((I("p"), I("q")) if yb["tps"][0][1].get("k") == "var" else (N(1), N(2), I("n1"), I("n2"), I("n3"))):
+                    for gi, gdata in enumerate((G1, qgen.random_graph(rng), qgen.wide_graph(rng, 8, 12))):
+                        data = {"op": "data", "quads": [t + ["D"] for t in gdata], "graphs": []}
+                        q = {"form": "select", "proj": ["*"], "where": w}
+                        st = stores[(i + oi + gi) % 3][1]
+                        jobs.append({"cfg": {"facade": "graph", "store": st}, "events": [data, {"op": "query", "q": q, "init": {"vars": [yv], "rows": [[val]]}}]})
+                        if gi == 0:
+                            jobs.append({"cfg": {"facade": "graph", "store": st}, "events": [data, {"op": "prepare", "id": "q", "q": q}, {"op": "run", "id": "q"},
+                                                                                             {"op": "run", "id": "q", "init": {"vars": [yv], "rows": [[val]]}}, {"op": "run", "id": "q"}]})
+    # the same query text whose prefix is declared only through initNs, evaluated in one process under two different namespaces
+    for i, w in enumerate(sel[:60 if quick else 400]):
+        data = {"op": "data", "quads": [t + ["D"] for t in (G1 if i % 2 == 0 else qgen.random_graph(rng))], "graphs": []}
+        q = {"form": "select", "proj": ["*"], "where": w}
+        order = [("alt", "main"), ("main", "alt", "main")][i % 2]
+        jobs.append({"cfg": {"facade": "graph", "store": stores[i % 3][1]}, "events": [data] + [{"op": "query", "q": q, "initns": ns} for ns in order]})
     out.extra["rewrites"] = nrew
     # (c) prepared-query histories
     for i in range(200 if quick else 1500):
